@@ -97,6 +97,12 @@ def cross_process(h: Harness):
     for a in ("rs", "gp", "hc"):
         configs.append([a, "stack", "twins", 11, {"gp": 30}.get(a, 12)])
     configs.append(["gpmo", "ge", "full", 9, 30])
+    # NAMED seeds (`NativeRandomSource("experiment-7")`: random.Random seeds itself from the text, the same in every process)
+    for a, r, gname, s in (("gp", "tree", "plain", "experiment-7"), ("rs", "ge", "full", "fold-2/run-3"), ("hc", "sge", "full", "a"), ("opo", "dsge", "plain", "experiment-7")):
+        configs.append([a, r, gname, s, {"gp": 30}.get(a, 12)])
+    # a grammar from the library's own seeded generator of benchmark grammars
+    for a, r in (("gp", "tree"), ("rs", "ge"), ("hc", "dsge")):
+        configs.append([a, r, "synthetic", 8, {"gp": 30}.get(a, 12)])
     envs = [{"PYTHONHASHSEED": "0", "C08_PAD": "0", "C08_IMPORT_ORDER": "a"},
             {"PYTHONHASHSEED": "1", "C08_PAD": "1000", "C08_IMPORT_ORDER": "b", "C08_HOLES": "1"},
             {"PYTHONHASHSEED": "4242", "C08_PAD": "123457", "C08_IMPORT_ORDER": "a"}]
